@@ -375,6 +375,7 @@ def _main_run(mod, a, seed):
     results_digest = {}
     steps = [0]
     vclock = [0.0]
+    units = [0]
 
     def on_result(i, case, r):
         if not r["ok"]:
@@ -386,7 +387,10 @@ def _main_run(mod, a, seed):
             stats[k] = stats.get(k, 0) + v
         steps[0] += res.get("steps", 0)
         vclock[0] += res.get("vclock", 0.0)
-        if res.get("nontrivial"):
+        units[0] += res.get("evaluations", 1)
+        if res.get("keys") is not None:
+            nontrivial_keys.update(res["keys"])
+        elif res.get("nontrivial"):
             nontrivial_keys.add(res.get("key") or res.get("digest"))
         digests.add(res.get("digest"))
         if len(samples) < 3 and res.get("nontrivial"):
@@ -460,7 +464,8 @@ def _main_run(mod, a, seed):
 
     wall = time.monotonic() - t0
     cov = {
-        "evaluations": done,
+        "evaluations": units[0],
+        "cases_executed": done,
         "distinct_nontrivial": len(nontrivial_keys),
         "rule": mod.RULE,
         "samples": samples or [cases[0]] if cases else [],
